@@ -1,10 +1,11 @@
-import DclabModel.Model.Http
+import DclabModel.Model.HttpFault
 import DclabModel.DriveUtil
 /-! Line-protocol driver for the `HTTPFile` model (C19).
 
     new <cs> <keep>          fresh file object (keeps blob/oob)
     blob <b> <b> …           set resource bytes      oob <b> …   reply to unsatisfiable ranges
     read <n> | seek <off> <whence> | tell            → `<model answer> ## <spec answer>`
+    readf <n> <budget>       read(n) during which download number budget+1 raises
     state                                            → `cache <keys in order> reqs <start>-<stop>;…`
 -/
 open DclabModel.Http DclabModel.DriveUtil
@@ -20,11 +21,17 @@ def showOut : Out → String
   | .pos p => s!"pos {p}"
   | .unit => "ok"
   | .keyError => "err:key"
+  | .ioError => "err:io"
   | .unmodelled => "unmodelled"
 
 def doOp (d : D) (op : Op) : D × String :=
   let (st', o) := step d.sv d.cfg d.st op
   let (sp', so) := specStep d.sv d.spos op
+  ({ d with st := st', spos := sp' }, showOut o ++ " ## " ++ showOut so)
+
+def doOpF (d : D) (op : OpF) : D × String :=
+  let (st', o) := stepF d.sv d.cfg d.st op
+  let (sp', so) := specStepF d.sv d.spos op (decide (o = .ioError))
   ({ d with st := st', spos := sp' }, showOut o ++ " ## " ++ showOut so)
 
 def handle (d : D) (line : String) : D × String :=
@@ -42,6 +49,9 @@ def handle (d : D) (line : String) : D × String :=
   | ["read", n] => match parseInt? n with
     | some n => doOp d (.read n)
     | none => (d, "bad-op")
+  | ["readf", n, b] => match parseInt? n, b.toNat? with
+    | some n, some b => doOpF d (.readF n b)
+    | _, _ => (d, "bad-op")
   | ["seek", off, w] => match parseInt? off, w.toNat? with
     | some o, some w => doOp d (.seek o w)
     | _, _ => (d, "bad-op")
